@@ -110,6 +110,8 @@ def _run_one(args) -> dict:
         ctx = Ctx(e.prop, work, 'quick')
         try:
             mod.check(ctx)
+            from .rules import caches
+            caches.report_used(ctx)
         except AnalysisError as ex:
             return {'id': e.id, 'status': 'analysis-error', 'msg': str(ex), 'expect': e.expect}
         from .report import load_known
